@@ -156,6 +156,13 @@ func tokenizeStream(src io.Reader, normalize bool, dict *dictionary, updateDict 
 						Line: line})
 				}
 				line++
+				if deferredWord {
+					// A word joined across a hyphenated line break ends this line:
+					// the deferred line break is accounted for here, the next line
+					// starts afresh.
+					deferredWord = false
+					line++
+				}
 				continue
 			}
 
